@@ -315,11 +315,6 @@ pub struct Model {
     pub last_stop: bool,
     /// spec-level fact about the last group send: a live, non-full member existed
     pub last_group_had_taker: bool,
-    /// spawns handed to the dispatcher since an actor value parked in its Drop (= since a worker
-    /// thread is blocked)
-    pub drop_hold_dispatches: usize,
-    /// the actor of the most recent spawn that was handed to the dispatcher
-    pub last_dispatched: Option<usize>,
 }
 
 pub fn code_pre(a: usize) -> u32 {
@@ -351,8 +346,6 @@ impl Model {
             respawn_budget,
             last_stop: false,
             last_group_had_taker: false,
-            drop_hold_dispatches: 0,
-            last_dispatched: None,
         }
     }
 
@@ -383,10 +376,6 @@ impl Model {
             self.names[n] = Some(a);
             act.reused_name_of_held = self.actors.iter().any(|x| x.phase == Phase::DropHeld && x.spec.name == Some(n));
         }
-        if self.held_drops() > 0 {
-            self.drop_hold_dispatches += 1;
-        }
-        self.last_dispatched = Some(a);
         self.actors.push(act);
         self.enter_hook(a, Hook::PreStart);
         a
@@ -396,20 +385,11 @@ impl Model {
         self.actors.iter().filter(|x| x.phase == Phase::DropHeld).count()
     }
 
-    /// A parked Drop blocks its worker thread. New tasks go to the worker that has been waiting
-    /// for work longest (flume wakes its receivers first-in first-out and a worker re-registers
-    /// right after taking a task), so with two workers exactly the first spawn dispatched after
-    /// the Drop parked is certain to land on the free worker; any later one may queue behind the
-    /// blocked one. Spawns that are refused at the registry are never dispatched.
+    /// A parked Drop blocks its worker thread: a spawn that reaches the dispatcher needs a worker
+    /// that is not blocked (the harness sees to it that a free worker picks the task up, see
+    /// `real_spawn`). Spawns that are refused at the registry never reach the dispatcher.
     pub fn can_spawn(&self, spec: &SpawnSpec, workers: usize) -> bool {
-        if spec.name.is_some_and(|n| self.names[n].is_some()) {
-            return true;
-        }
-        match self.held_drops() {
-            0 => true,
-            1 => workers >= 2 && self.drop_hold_dispatches == 0,
-            _ => false,
-        }
+        spec.name.is_some_and(|n| self.names[n].is_some()) || self.held_drops() < workers
     }
 
     fn enter_hook(&mut self, a: usize, h: Hook) {
@@ -450,9 +430,6 @@ impl Model {
                     if self.actors[a].spec.hold_drop {
                         self.actors[a].journal.push(EvK::ValueDropBegin);
                         self.actors[a].phase = Phase::DropHeld;
-                        // (if other tasks were dispatched after this actor's, the free worker need not be
-                        // the one that is served next: no further spawn then)
-                        self.drop_hold_dispatches = if self.last_dispatched == Some(a) { 0 } else { 1 };
                     } else {
                         self.actors[a].phase = Phase::StartFailed;
                     }
@@ -536,9 +513,6 @@ impl Model {
             Phase::DropHeld => {
                 self.actors[a].journal.push(EvK::ValueDropEnd);
                 self.actors[a].phase = Phase::StartFailed;
-                if self.held_drops() == 0 {
-                    self.drop_hold_dispatches = 0;
-                }
             }
             Phase::Handling(m) => {
                 let ok = !self.msgs[m].fail;
